@@ -2,14 +2,20 @@ package checks
 
 import (
 	"bytes"
+	"context"
 	"encoding/binary"
 	"errors"
 	"fmt"
+	"io"
+	"io/fs"
+	"net"
+	"net/url"
 	"os"
 	"os/exec"
 	"path/filepath"
 	"sort"
 	"strings"
+	"syscall"
 	"time"
 
 	ccpb "github.com/google/go-tdx-guest/proto/checkconfig"
@@ -645,13 +651,35 @@ func crashLine(stderr string) string {
 type failingGetter struct {
 	inner  *world.Getter
 	failAt string
+	err    error // nil: a plain error
 }
 
 func (g *failingGetter) Get(u string) (map[string][]string, []byte, error) {
 	if strings.Contains(u, g.failAt) {
+		if g.err != nil {
+			return nil, nil, g.err
+		}
 		return nil, nil, errors.New("scripted network failure")
 	}
 	return g.inner.Get(u)
+}
+
+// c19FailureKinds: what a failed download looks like to the library — whatever the kind, it is a failed download
+var c19FailureKinds = []struct {
+	name string
+	err  error
+}{
+	{"plain", nil},
+	{"http-client-timeout", &url.Error{Op: "Get", URL: "https://api.trustedservices.intel.com/x", Err: context.DeadlineExceeded}},
+	{"wrapped-deadline-exceeded", fmt.Errorf("request failed: %w", context.DeadlineExceeded)},
+	{"context-canceled", &url.Error{Op: "Get", URL: "https://api.trustedservices.intel.com/x", Err: context.Canceled}},
+	{"os-deadline-exceeded", &net.OpError{Op: "read", Net: "tcp", Err: os.ErrDeadlineExceeded}},
+	{"io-eof", io.EOF},
+	{"unexpected-eof", io.ErrUnexpectedEOF},
+	{"dns", &net.DNSError{Err: "no such host", Name: "api.trustedservices.intel.com", IsNotFound: true}},
+	{"connection-refused", &net.OpError{Op: "dial", Net: "tcp", Err: syscall.ECONNREFUSED}},
+	{"fs-not-exist", fs.ErrNotExist},
+	{"error-with-empty-text", errors.New("")},
 }
 
 func c19TypedErrors(r *mc.Run) {
@@ -661,50 +689,56 @@ func c19TypedErrors(r *mc.Run) {
 		crl        bool
 	}{
 		{"tcb-info", "/tcb?fmspc=", false}, {"qe-identity", "/qe/identity", false}, {"pck-crl", "pckcrl", true}, {"root-crl", "IntelSGXRootCA", true}} {
-		for _, wrap := range []string{"plain", "retrying"} {
-			id := "typed-error/" + fp.name + "/" + wrap
-			if !r.Want(id) {
-				continue
-			}
-			var g trust.HTTPSGetter = &failingGetter{inner: w.Getter.Clone(), failAt: fp.frag}
-			if wrap == "retrying" {
-				g = &trust.RetryHTTPSGetter{Timeout: 5 * time.Millisecond, MaxRetryDelay: time.Millisecond, Getter: g}
-			}
-			now := w.Now
-			err := world.SafeVerifyRaw(w.Raw(), &verify.Options{GetCollateral: true, CheckRevocations: true, Getter: g, Now: &now, TrustedRoots: w.Roots})
-			// the tool does not set the options by hand: it converts its merged root-of-trust message. The same failing
-			// fetch must surface the same way through options built by that conversion
-			if ro, cerr := verify.RootOfTrustToOptions(&ccpb.RootOfTrust{Cabundles: []string{string(world.PEM(w.PKI.Root))}, GetCollateral: true, CheckCrl: true}); cerr == nil && ro != nil {
-				var g2 trust.HTTPSGetter = &failingGetter{inner: w.Getter.Clone(), failAt: fp.frag}
+		for wi, wrap := range []string{"plain", "retrying"} {
+			for _, fk := range c19FailureKinds {
+				id := "typed-error/" + fp.name + "/" + wrap
+				if fk.err != nil {
+					id += "/failure=" + fk.name
+				}
+				if !r.Want(id) {
+					continue
+				}
+				_ = wi
+				var g trust.HTTPSGetter = &failingGetter{inner: w.Getter.Clone(), failAt: fp.frag, err: fk.err}
 				if wrap == "retrying" {
-					g2 = &trust.RetryHTTPSGetter{Timeout: 5 * time.Millisecond, MaxRetryDelay: time.Millisecond, Getter: g2}
+					g = &trust.RetryHTTPSGetter{Timeout: 5 * time.Millisecond, MaxRetryDelay: time.Millisecond, Getter: g}
 				}
-				now2 := w.Now
-				ro.Getter, ro.Now = g2, &now2
-				err2 := world.SafeVerifyRaw(w.Raw(), ro)
-				var a2 *trust.AttestationRecreationErr
-				var c2p *verify.CRLUnavailableErr
-				var c2v verify.CRLUnavailableErr
-				if err2 == nil || !(errors.As(err2, &a2) || errors.As(err2, &c2p) || errors.As(err2, &c2v)) {
-					r.Violate("typed-error:via-root-of-trust-conversion:"+fp.name, id, "with options converted from a root-of-trust message (check_crl + get_collateral) a failed "+fp.name+" download gives: "+errStr(err2), nil)
+				now := w.Now
+				err := world.SafeVerifyRaw(w.Raw(), &verify.Options{GetCollateral: true, CheckRevocations: true, Getter: g, Now: &now, TrustedRoots: w.Roots})
+				// the tool does not set the options by hand: it converts its merged root-of-trust message. The same failing
+				// fetch must surface the same way through options built by that conversion
+				if ro, cerr := verify.RootOfTrustToOptions(&ccpb.RootOfTrust{Cabundles: []string{string(world.PEM(w.PKI.Root))}, GetCollateral: true, CheckCrl: true}); cerr == nil && ro != nil {
+					var g2 trust.HTTPSGetter = &failingGetter{inner: w.Getter.Clone(), failAt: fp.frag, err: fk.err}
+					if wrap == "retrying" {
+						g2 = &trust.RetryHTTPSGetter{Timeout: 5 * time.Millisecond, MaxRetryDelay: time.Millisecond, Getter: g2}
+					}
+					now2 := w.Now
+					ro.Getter, ro.Now = g2, &now2
+					err2 := world.SafeVerifyRaw(w.Raw(), ro)
+					var a2 *trust.AttestationRecreationErr
+					var c2p *verify.CRLUnavailableErr
+					var c2v verify.CRLUnavailableErr
+					if err2 == nil || !(errors.As(err2, &a2) || errors.As(err2, &c2p) || errors.As(err2, &c2v)) {
+						r.Violate("typed-error:via-root-of-trust-conversion:"+fp.name, id, "with options converted from a root-of-trust message (check_crl + get_collateral) a failed "+fp.name+" download gives: "+errStr(err2), nil)
+					}
+				} else {
+					r.Violate("typed-error:conversion-failed", id, "RootOfTrustToOptions refuses an inline bundle with both switches on: "+errStr(cerr), nil)
 				}
-			} else {
-				r.Violate("typed-error:conversion-failed", id, "RootOfTrustToOptions refuses an inline bundle with both switches on: "+errStr(cerr), nil)
+				var are *trust.AttestationRecreationErr
+				var crlP *verify.CRLUnavailableErr
+				var crlV verify.CRLUnavailableErr
+				typed := errors.As(err, &are) || errors.As(err, &crlP) || errors.As(err, &crlV)
+				out := "typed"
+				switch {
+				case err == nil || world.IsPanic(err):
+					r.Violate("typed-error:no-error:"+fp.name, id, "a failing fetch did not produce an error: "+errStr(err), nil)
+					out = "no-error"
+				case !typed:
+					r.Violate("typed-error:not-distinguishable:"+fp.name, id, "the error for a failed "+fp.name+" download exposes neither trust.AttestationRecreationErr nor verify.CRLUnavailableErr to errors.As: "+errStr(err), nil)
+					out = "untyped"
+				}
+				r.Eval(id, true, "typed-error:"+out)
 			}
-			var are *trust.AttestationRecreationErr
-			var crlP *verify.CRLUnavailableErr
-			var crlV verify.CRLUnavailableErr
-			typed := errors.As(err, &are) || errors.As(err, &crlP) || errors.As(err, &crlV)
-			out := "typed"
-			switch {
-			case err == nil || world.IsPanic(err):
-				r.Violate("typed-error:no-error:"+fp.name, id, "a failing fetch did not produce an error: "+errStr(err), nil)
-				out = "no-error"
-			case !typed:
-				r.Violate("typed-error:not-distinguishable:"+fp.name, id, "the error for a failed "+fp.name+" download exposes neither trust.AttestationRecreationErr nor verify.CRLUnavailableErr to errors.As: "+errStr(err), nil)
-				out = "untyped"
-			}
-			r.Eval(id, true, "typed-error:"+out)
 		}
 	}
 	// a root that names two CRL distribution points: a download failure is reported (exit 3 for the tool) only when
